@@ -4,7 +4,7 @@ import os
 import common
 
 PROPS = "RotoV.Props.C02"
-MODULES = ["RotoV.Lemmas.Layout", "RotoV.Lemmas.LayoutPath", "RotoV.Lemmas.LayoutClone", "RotoV.Lemmas.LayoutEq", "RotoV.Lemmas.LayoutTotal", "RotoV.Lemmas.LayoutDrop", "RotoV.Lemmas.LayoutRead", "RotoV.Lemmas.LayoutWrite", "RotoV.Model.LayoutMem", "RotoV.Model.Layout", "RotoV.Model.LayoutOps",
+MODULES = ["RotoV.Lemmas.Layout", "RotoV.Lemmas.LayoutPath", "RotoV.Lemmas.LayoutClone", "RotoV.Lemmas.LayoutEq", "RotoV.Lemmas.LayoutTotal", "RotoV.Lemmas.LayoutDrop", "RotoV.Lemmas.LayoutRead", "RotoV.Lemmas.LayoutWrite", "RotoV.Lemmas.LayoutListEq", "RotoV.Model.LayoutListEq", "RotoV.Model.LayoutListStd", "RotoV.Model.LayoutMem", "RotoV.Model.Layout", "RotoV.Model.LayoutOps",
            "RotoV.Model.LayoutStd", "RotoV.Model.LayoutKind", "RotoV.Model.ValueSpec"]
 
 
@@ -17,10 +17,18 @@ def search(ctx):
 
 
 def run(ctx):
-    ctx.extract(["layout", "layoutloops", "layoutdecide"])
+    ctx.extract(["layout", "layoutloops", "layoutdecide", "layoutlisteq"])
     ctx.prove(PROPS, extra_modules=MODULES)
     if ctx.build_harness("c02"):
-        ctx.harness("c02", ["run", ctx.seed, ctx.tier], timeout=3000)
+        rep = ctx.harness("c02", ["run", ctx.seed, ctx.tier], timeout=3000)
+        if rep is not None and not any((v.get("input") or {}).get("kind") == "beh" for v in rep.get("impl_violations", [])):
+            # (when generated scripts already fail there is nothing to measure, and the violation stands)
+            # the representation battery must REACH its class: among the pairs of equal
+            # values compared as list elements whose bytes the host can see, some differ
+            # in bytes outside the value (measured through the hook element_bytes)
+            h = rep.get("histograms", {}).get("equal_values_compared_as_list_elements_bytes", {})
+            ctx.obligation("reach:equal-values-with-other-bytes", h.get("differ", 0) >= 20,
+                           f"measured pairs: {h} (the painted stack no longer reaches the bytes outside the values)")
     ctx.trusted += [
         "usize is modelled as Nat: no wrap-around in layout arithmetic (sizes of real types are far below 2^64)",
         "leaf layouts (primitives, String, List, registered types) are whatever the runtime reports; theorems assume only that they pass Layout::new's asserts",
